@@ -11,6 +11,7 @@ m=json.load(open('/verif/MANIFEST.json'))
 m['hooks']['source_commits']=list(reversed([l.split()[0] for l in log if l.split(' ',1)[1].startswith('verif:')]))
 json.dump(m,open('/verif/MANIFEST.json','w'),indent=1)
 PY
+python3 lockdiff.py HEAD
 bad=0
 for p in $props; do out=$(./check $p quick 2>&1); rc=$?; echo "$out" | tail -1; if [ $rc -ne 0 ] || echo "$out" | grep -q "^VIOLATION"; then echo "!!! $p rc=$rc"; bad=1; fi; done
 python3-vt - <<'PY'
